@@ -93,7 +93,7 @@ def run(ctx):
             parts += [[data[:i], data[i:]] for i in range(len(data) + 1)]
         for chunks in parts:
             evaluations += 1
-            how = ("bytes", "reused-bytearray", "bytes", "memoryview", "memoryview-signed", "bytes", "memoryview-char", "memoryview-ctypes")[evaluations % 8]
+            how = ("bytes", "reused-bytearray", "bytes", "memoryview", "memoryview-bytearray", "bytes", "reused-bytearray", "memoryview")[evaluations % 8]
             hist["input-object:" + how] += 1
             v = accounting(prep, chunks, how)
             if v:
